@@ -61,7 +61,7 @@ def _config_params(sites, d: Def) -> set[str] | None:
     return {p for p, m in by_kw.items() if m == n} - TASK_TIME_NAMES
 
 
-@rule("HOIST-1", props=["C17"], floor=3)
+@rule("HOIST-1", props=["C17"], floor=4)
 def hoist(ctx: Ctx) -> None:
     """every raise / assert in a registered block function (or a function nested in a builder)
     is guarded by something the task's own block decides; a refusal decided by build-time
